@@ -91,7 +91,10 @@ class C01(Plugin):
                   "<table><caption><b><table>", "<button><button>", "<nobr><nobr><nobr>", "<b><b><b><b><p>x", "<li><li><ul><li></li>",
                   "<h1><h2>", "<dd><dt><div><dd>", "<ruby><rt><rp>", "<html a=1><html b=2><body c=3><body d=4>", "</br>", "<pre>\n\nx",
                   "<table> x <tr> y", "<table><td>a</table>b", "<svg><![CDATA[a]]></svg>", "<title>a</title><title>b", "<head></head> <!--c-->x",
-                  "<body></body><!--c-->", "</html>x<!--c-->", "<font><p>a<table><font>", "<a><p><a>", "<a>1<div>2<div>3</a>4</div>5</div>"]:
+                  "<body></body><!--c-->", "</html>x<!--c-->", "<font><p>a<table><font>", "<a><p><a>", "<a>1<div>2<div>3</a>4</div>5</div>",
+                  # attribute merging into html/body goes through another minidom API than element creation
+                  "<p><html href=u xlink:href=#a> ", "<p><body href=u xlink:href=#a><body xlink:href=b href=c x:href=d>",
+                  "<html xlink:href=a><p><html href=b a:href=c>", "<html href=u><body a:b=1><html xlink:href=v><body c:b=2 b=3>"]:
             out.append({"markup": m, "fragment": False, "container": "div", "scripting": False, "ns": True})
             out.append({"markup": m, "fragment": True, "container": "div", "scripting": False, "ns": True})
             out.append({"markup": m, "fragment": True, "container": "table", "scripting": True, "ns": False})
